@@ -1,5 +1,8 @@
 from verif import Ob
-META = {'bounds': 'TBD', 'outside': 'TBD', 'assumptions': ['htp_log stubbed', 'fixed-capacity bstr_alloc'], 'trusted_base': ['harness/mp/match.c']}
+META = {'bounds': 'matcher: boundary "b", literal framing per shape (CRLF / LF-only line ends, one or two parts, preamble / epilogue, data ending in its own CRLF), 1 (quick) or 2 (thorough) symbolic bytes of part data / preamble / header line (all 256 values, LF "--b" look-alikes excluded), one byte per call or 2-3 byte chunks, every chunk an exact-size heap object; part layer: literal Content-Disposition (text part, escaped quote / backslash inside and at the end of the name, file part, Content-Type line), 2 symbolic data bytes, header line whole or cut at 5 positions, data whole or cut; parameters: 3 parts of symbolic type; boundary extraction: literal Content-Type',
+        'outside': 'symbolic names / file names / boundary bytes; chunks of more than 3 bytes into a non-initial matcher state (no verdict); htp_mpartp_finalize itself; more than two parts; file extraction to disk; folded or unknown part headers; real bstr_builder / htp_list / htp_table (flat models here, the real ones are C17)',
+        'assumptions': ['htp_log stubbed', 'fixed-capacity bstr_alloc (string bytes in a separate byte object for the part layer)', 'pieces_model.c: piece-preserving flat model of bstr_builder + htp_list', 'table_model.c for part headers', 'byte-loop memcpy model', 'recording handlers reproduce the part layer\'s line/data mode rule in the matcher obligations'],
+        'trusted_base': ['harness/mp/match.c (recorders, construction log)', 'harness/mp/part.c', 'harness/mp/param.c', 'harness/mp/findb.c', 'harness/common/pieces_model.c']}
 UM = ['bstr.c', 'htp_util.c', 'htp_utf8_decoder.c']
 def match(shape, nd, cuts=None, maxchunk=1, label='split', tier='quick', timeout=900, mem_gb=12):
     d = {'ND': nd, 'SHAPE': shape, 'FA_CAP': 40, 'MAXPIECE': maxchunk, 'PM_NP': 7, 'PM_CAP': max(maxchunk, 2)}
@@ -12,14 +15,14 @@ def match(shape, nd, cuts=None, maxchunk=1, label='split', tier='quick', timeout
     return Ob(name, 'mp/match.c', units=UM, models=['@libc_model.c', '@fixed_alloc.c', '@pieces_model.c'], remove=['htp_log', 'bstr_alloc', 'bstr_expand'], defines=d, unwind=8,
               unwind_by=[(r'^harness\.', 60), (r'^htp_mpartp_parse\.6', k + 1), (r'^htp_mpartp_parse\.', k), (r'^htp_martp_process_aside', 6), (r'^htp_mpartp_init_boundary', 6), (r'^rec_data|^feed', k + 1), (r'^strlen', 8), (r'^mk', 4), (r'^bstr_builder|^htp_list', max(9, k))],
               restrict_by=[(r'handle_data', 'rec_data'), (r'handle_boundary', 'rec_boundary')],
-              fp_strict=True, solver='cadical', tier=tier, timeout=timeout, mem_gb=mem_gb, statement='matcher', bounds='shape %d, %d symbolic data bytes' % (shape, nd))
+              fp_strict=True, solver='cadical', tier=tier, timeout=timeout, mem_gb=mem_gb, statement='boundary matcher with recording handlers: the log of bytes, end-of-line marks, boundary events and the anomaly flags equal those of the construction for this delivery; every piece handed on is readable; no read outside the exact-size chunk', bounds='shape %d, %d symbolic byte(s) (all values), %s' % (shape, nd, 'one byte per call' if cuts is None else 'chunks ending at ' + ','.join(str(c) for c in cuts)))
 UP = ['bstr.c', 'htp_util.c', 'htp_utf8_decoder.c', 'htp_hooks.c']
 def part(variant, hc, dc, nd=2, namesym=0, tier='quick', timeout=600, mem_gb=8, escq=1):
     d = {'ESCQ': escq, 'VARIANT': variant, 'HC': hc, 'DC': dc, 'ND': nd, 'NAMESYM': namesym, 'FA_CAP': 72, 'PM_CAP': 72, 'PM_NP': 3, 'TM_MAXP': 3}
     return Ob('part.v%d.hc%d.dc%d%s%s' % (variant, hc, dc, '.namesym' if namesym else '', '.bs' if (variant == 4 and not escq) else ''), 'mp/part.c', units=UP, models=['@libc_model.c', '@fixed_alloc_split.c', '@pieces_model.c', '@table_model.c', '@memcpy_loop.c'], remove=['htp_log', 'bstr_alloc', 'bstr_expand'], defines=d, unwind=62,
               unwind_by=[(r'^htp_list|^htp_table|^bstr_builder_clear|^bstr_builder_destroy', 8), (r'^memcpy', 76), (r'^bstr_builder_to_str|^bstr_builder_append', 76), (r'^htp_mpart_part_parse_c_d|^bstr_util_mem_index_of_mem\.0', 27), (r'^bstr_util_mem_index_of_mem\.1', 11), (r'^htp_mpart_decode_quoted', 5), (r'^bstr_util_cmp_mem_nocase', 21), (r'^strlen', 21), (r'^htp_mpartp_cd_param_type|^htp_parse_ct', 12)],
               flags=['--max-field-sensitivity-array-size', '128'], restrict_by=[(r'handle_data', 'htp_mpartp_handle_data'), (r'handle_boundary', 'htp_mpartp_handle_boundary'), (r'callback|->fn|\\.fn', 'cb_file')],
-              fp_strict=True, tier=tier, timeout=timeout, mem_gb=mem_gb, statement='part layer', bounds='variant %d, header cut %d, data cut %d' % (variant, hc, dc))
+              fp_strict=True, tier=tier, timeout=timeout, mem_gb=mem_gb, statement='part layer behind the matcher seam: type, name, file name, content type, value / file bytes exact, no anomaly flag, for this cutting of the header line and the data', bounds='variant %d (0 text, 1 escaped quote inside, 2 file, 3 + Content-Type, 4 escape at the end), header line cut at %d (0 = whole), data cut at %d, 2 symbolic data bytes, is_line of data pieces symbolic' % (variant, hc, dc))
 NPRE = {0: 10, 1: 10, 2: 7, 3: 14, 4: 0, 5: 5, 6: 12}
 NPOST = {0: 9, 1: 21, 2: 7, 3: 11, 4: 21, 5: 16, 6: 9}
 def chunks(shape, nd, sizes, start=None):
@@ -47,10 +50,10 @@ def obligations(tier):
                       statement='boundary parameter extracted exactly, no header anomaly flag, delimiter = CR LF -- boundary', bounds='literal boundary "bQ" (any symbolic boundary byte ran out of memory), %s' % ('quoted' if q else 'unquoted')))
     # boundary matcher (cadical; 12 GB each): quick = one symbolic data byte in four framings, one byte per call, plus a 2-byte chunking;
     # thorough = every framing with one and two symbolic bytes
-    for sh in (0, 1, 2, 6): obs.append(match(sh, 1, timeout=1200))
+    for sh in (0, 2, 3, 6): obs.append(match(sh, 1, timeout=1200))
     obs.append(match(0, 1, cuts=chunks(0, 1, [2, 2, 2, 2, 2]), maxchunk=2, label='chunks2', timeout=900))
     if tier == 'thorough':
-        for sh in (3, 4, 5): obs.append(match(sh, 1, timeout=3000, mem_gb=16, tier='thorough'))
+        for sh in (1, 4, 5): obs.append(match(sh, 1, timeout=3000, mem_gb=24, tier='thorough'))
         for sh in (0, 2, 6, 1, 3, 4, 5): obs.append(match(sh, 2, timeout=3600, mem_gb=24, tier='thorough'))
         obs.append(match(0, 1, cuts=chunks(0, 1, [1, 2, 2, 2, 2, 1]), maxchunk=2, label='chunks2b', timeout=3000, mem_gb=16, tier='thorough'))
         obs.append(match(0, 1, cuts=chunks(0, 1, [3, 3, 3, 1]), maxchunk=3, label='chunks3', timeout=3000, mem_gb=16, tier='thorough'))
